@@ -10,6 +10,7 @@ import (
 	"go/format"
 	"go/parser"
 	"go/token"
+	"io"
 	"math"
 	"sort"
 	"strconv"
@@ -19,19 +20,25 @@ import (
 	"github.com/fluhus/biostuff/align"
 	"github.com/fluhus/biostuff/formats/smtext"
 	"pgregory.net/rapid"
+	"verif/harness/internal/fault"
 	"verif/harness/internal/gen"
 )
 
 // NcbiLayout describes how a table is rendered. All lists are applied cyclically.
 type NcbiLayout struct {
-	Seps      []string `json:"seps"`       // separators between tokens, runs over {space, TAB, FF, CR}
-	Lead      []string `json:"lead"`       // leading whitespace of data lines
-	Trail     []string `json:"trail"`      // trailing whitespace of data lines
-	Before    []int    `json:"before"`     // number of comment/empty lines before each data line
-	Formats   []string `json:"formats"`    // score spelling: d g e f +g +d
+	Seps      []string `json:"seps"`    // separators between tokens, runs over {space, TAB, FF, CR}
+	Lead      []string `json:"lead"`    // leading whitespace of data lines
+	Trail     []string `json:"trail"`   // trailing whitespace of data lines
+	Before    []int    `json:"before"`  // number of comment/empty lines before each data line
+	Formats   []string `json:"formats"` // score spelling: d g e f +g +d
 	CRLF      bool     `json:"crlf"`
 	NoFinalNL bool     `json:"no_final_nl"`
 	After     int      `json:"after"` // comment/empty lines after the last row
+	// LongComment > 0: a comment line of that many bytes precedes the header.
+	// LongSep > 0: the separator before the last score of the first row is that many spaces.
+	LongComment int   `json:"long_comment,omitempty"`
+	LongSep     int   `json:"long_sep,omitempty"`
+	Chunks      []int `json:"chunks,omitempty"` // read schedule of the io.Reader (cyclic; empty = from memory)
 }
 
 // NcbiCorruption damages one token of a valid table.
@@ -110,14 +117,17 @@ func genNcbiLayout(t *rapid.T) *NcbiLayout {
 	ws := rapid.SampledFrom(wsRuns)
 	opt := rapid.SampledFrom(append([]string{"", "", ""}, wsRuns...))
 	return &NcbiLayout{
-		Seps:      rapid.SliceOfN(ws, 1, 4).Draw(t, "seps"),
-		Lead:      rapid.SliceOfN(opt, 1, 3).Draw(t, "lead"),
-		Trail:     rapid.SliceOfN(opt, 1, 3).Draw(t, "trail"),
-		Before:    rapid.SliceOfN(rapid.SampledFrom([]int{0, 0, 0, 1, 2}), 1, 4).Draw(t, "before"),
-		Formats:   rapid.SliceOfN(rapid.SampledFrom([]string{"d", "g", "e", "f", "+g", "+d"}), 1, 4).Draw(t, "formats"),
-		CRLF:      rapid.Bool().Draw(t, "crlf"),
-		NoFinalNL: rapid.Bool().Draw(t, "nofinal"),
-		After:     rapid.SampledFrom([]int{0, 0, 1, 3}).Draw(t, "after"),
+		Seps:        rapid.SliceOfN(ws, 1, 4).Draw(t, "seps"),
+		Lead:        rapid.SliceOfN(opt, 1, 3).Draw(t, "lead"),
+		Trail:       rapid.SliceOfN(opt, 1, 3).Draw(t, "trail"),
+		Before:      rapid.SliceOfN(rapid.SampledFrom([]int{0, 0, 0, 1, 2}), 1, 4).Draw(t, "before"),
+		Formats:     rapid.SliceOfN(rapid.SampledFrom([]string{"d", "g", "e", "f", "+g", "+d"}), 1, 4).Draw(t, "formats"),
+		CRLF:        rapid.Bool().Draw(t, "crlf"),
+		NoFinalNL:   rapid.Bool().Draw(t, "nofinal"),
+		After:       rapid.SampledFrom([]int{0, 0, 1, 3}).Draw(t, "after"),
+		LongComment: rapid.SampledFrom([]int{0, 0, 0, 0, 0, 0, 0, 0, 0, 5000, 70000}).Draw(t, "longComment"),
+		LongSep:     rapid.SampledFrom([]int{0, 0, 0, 0, 0, 0, 0, 0, 0, 4100, 66000}).Draw(t, "longSep"),
+		Chunks:      rapid.SliceOfN(rapid.SampledFrom([]int{1, 2, 3, 7, 64, 4096}), 0, 3).Draw(t, "chunks"),
 	}
 }
 
@@ -223,7 +233,11 @@ func renderNcbi(c C20Case) []byte {
 		buf.WriteString(l.Lead[line%len(l.Lead)])
 		for i, tk := range tokens {
 			if i > 0 {
-				buf.WriteString(l.Seps[tok%len(l.Seps)])
+				if l.LongSep > 0 && line == 1 && i == len(tokens)-1 {
+					buf.WriteString(strings.Repeat(" ", l.LongSep))
+				} else {
+					buf.WriteString(l.Seps[tok%len(l.Seps)])
+				}
 				tok++
 			}
 			buf.WriteString(tk)
@@ -233,6 +247,9 @@ func renderNcbi(c C20Case) []byte {
 		line++
 	}
 	label := func(b byte) string { return string([]byte{b}) }
+	if l.LongComment > 0 {
+		buf.WriteString("#" + strings.Repeat("c", l.LongComment-1) + term)
+	}
 	var header []string
 	for _, b := range c.Cols {
 		header = append(header, label(b))
@@ -357,7 +374,18 @@ func checkC20(c C20Case, o *Obs) error {
 	text := renderNcbi(c)
 	var got align.SubstitutionMatrix
 	var err error
-	if p := catch(func() { got, err = smtext.ReadNCBI(bytes.NewReader(text)) }); p != nil {
+	var rd io.Reader = bytes.NewReader(text)
+	if len(l.Chunks) > 0 {
+		for _, s := range l.Chunks {
+			if s < 1 {
+				return nil
+			}
+		}
+		rd = &fault.Chunked{Data: text, Sizes: l.Chunks, EOFWithData: len(text)%2 == 0}
+		o.Class("chunked reader")
+	}
+	o.ClassIf(l.LongComment > 65536 || l.LongSep > 65536, "line > 64 KiB")
+	if p := catch(func() { got, err = smtext.ReadNCBI(rd) }); p != nil {
 		return fmt.Errorf("ReadNCBI panicked on %q: %v", text, p)
 	}
 	if c.Corrupt != nil {
@@ -613,6 +641,31 @@ func exhaustiveC20(thorough bool, emit func(C20Case) bool) {
 					}
 				}
 			}
+		}
+	}
+	// long comment lines and long whitespace runs (lines beyond 4 KiB and 64 KiB), chunked delivery
+	for _, n := range []int{4095, 4096, 4097, 65535, 65536, 65537, 70000, 1 << 20} {
+		for v := 0; v < 3; v++ {
+			c := base
+			c.Layout = &NcbiLayout{Seps: []string{" "}, Lead: []string{""}, Trail: []string{""}, Before: []int{0}, Formats: []string{"g"}}
+			switch v {
+			case 0:
+				c.Layout.LongComment = n
+			case 1:
+				c.Layout.LongSep = n
+			default:
+				c.Layout.LongComment, c.Layout.LongSep, c.Layout.Chunks, c.Layout.CRLF = n, n, []int{4096, 1}, true
+			}
+			if !emit(c) {
+				return
+			}
+		}
+	}
+	for _, chunks := range [][]int{{1}, {2}, {3, 1}, {5}, {4096}} {
+		c := base
+		c.Layout = &NcbiLayout{Seps: []string{" \t"}, Lead: []string{" "}, Trail: []string{""}, Before: []int{1, 0}, Formats: []string{"g"}, CRLF: true, Chunks: chunks}
+		if !emit(c) {
+			return
 		}
 	}
 	// every single-token corruption of the base table
